@@ -227,13 +227,19 @@ def make_map_replay(clsname, names, part, nraw, r, s):
             obj.fill_feat_(y, xc)
             return y[s]
         fd = central_diff(val, x[r, s], h=1e-5 * max(1.0, abs(x[r, s])))
-        dfdx = np.zeros((nraw, NS))
-        dfdy = np.ones(NS)
-        obj.fill_deriv_(dfdx, dfdy, x.copy())
+        # the accumulation contract is part of the clause: start from the witness' old(dfdx) and seed dfdy
+        dfdx = np.array([[env.get("dold_%d_%d" % (rr, ss), 0.25 + 0.1 * rr) for ss in range(NS)] for rr in range(nraw)])
+        dfdy = np.array([env.get("g_%d" % ss, 1.0) for ss in range(NS)])
+        if abs(dfdy[s]) < 1e-3:
+            dfdy[s] = 1.0
+        old = dfdx[r, s]
+        obj.fill_deriv_(dfdx, dfdy.copy(), x.copy())
         code = dfdx[r, s]
-        rep = abs(code - fd) > 1e-6 * (1 + abs(fd))
+        expect = old + dfdy[s] * fd
+        rep = abs(code - expect) > 1e-6 * (1 + abs(expect))
         return {"reproduced": bool(rep), "class": clsname, "ctor_args": args, "x": x.tolist(), "raw_index": r, "sample": s,
-                "code_derivative": float(code), "finite_difference_of_code_value": float(fd)}
+                "old_dfdx": float(old), "dfdy": float(dfdy[s]), "dfdx_after_fill_deriv_": float(code),
+                "old_plus_dfdy_times_finite_difference_of_fill_feat_": float(expect)}
     return replay
 
 
